@@ -423,7 +423,7 @@ def main(run):
     nruns = sum(len(p["execs"]) + 2 for c in cases for p in c.points)
     run.log("shoot runs done:", nruns)
     rendered = [coq_case(c) for c in cases]
-    mism = histlib.coq_shards(run, "c07", rendered, "mismatches_c07", "c07case", shard=6)
+    mism, skipped = histlib.coq_shards(run, "c07", rendered, "mismatches_c07", "c07case", shard=5, count_fn="skipped_c07")
     run.log("coq done, mismatches:", mism)
     for idx, v in mism[:5]:
         c = cases[idx]
@@ -464,6 +464,8 @@ def main(run):
         "programs": len(cases),
         "shoot_invocations": nruns,
         "history_points_by_kind": kinds,
+        "points_exempt_from_fresh_reference_comparison": sum(skipped),
+        "points_judged_against_fresh_reference": sum(len(c.points) for c in cases) - sum(skipped),
         "points_whose_output_changed": changed,
         "failed_runs": sum(1 for c in cases for p in c.points for x in p["execs"] if not x["ok"]),
         "findings_measured": outcome,
@@ -485,8 +487,11 @@ TRUSTED = [
     "the per-type analyses are transcribed for the compact grammar of harness/histgen.py (see C08's trusted base)",
 ]
 ASSUMPTIONS = [
-    "'earlier shoot output' = output of earlier runs of the SAME command on possibly edited sources; files generated by other "
-    "subcommands (the shoot-new side the mapper reads) count as inputs",
+    "'earlier shoot output' in the generated histories = output of earlier runs of the SAME command on possibly edited sources; files "
+    "generated by other subcommands (the shoot-new side the mapper reads) count as inputs -- except that `new -type=*` selecting a "
+    "struct that `rest` generated is a defect (open finding K_new_selects_generated: witness replayed, class outside the random stream)",
+    "the model takes no path and no clock: location-independence holds by construction of the model and is only OBSERVED for the "
+    "implementation (relocated copies, [dir] from the module root)",
     "K_embed_order / K_aio_overlay_stale (open): points at which a selected type embeds another selected struct (new) are "
     "compared with the model (which reproduces the dependence on generated files) but excluded from the history-independence "
     "sentence",
